@@ -5,24 +5,24 @@
    outcome of the actual call). *)
 From AV Require Import Base Invoke InvokeProofs.
 
-(* soundness: what is accepted binds - proved for signatures without a required
-   keyword-only parameter (C19_sound_refuted shows the restriction is necessary: F13) *)
-Theorem C19_sound_partial : forall s c,
-  no_required_kwonly s = true ->
+(* soundness: whatever is accepted, Python can bind - for every signature and every call.
+   (On the original tree this failed for a handler with a required keyword-only parameter: F13,
+   repaired by a fix: commit; the counter-example is now refused.) *)
+Theorem C19_sound : forall s c,
   handler_invocation (Some s) c = None -> py_bind s c = true.
 Proof.
-  intros s c Hk H. unfold handler_invocation in H.
+  intros s c H. unfold handler_invocation in H.
   destruct (accept (signature_info s) c) eqn:E; [|discriminate].
   destruct c; [now apply sound_pos | now apply sound_names].
 Qed.
 
-Theorem C19_sound_refuted :
-  exists s c, handler_invocation (Some s) c = None /\ py_bind s c = false.
-Proof.
-  exists [ {| pk := PK; has_default := false; pname := 1 |};
-           {| pk := KO; has_default := false; pname := 2 |} ], (ByPos 1).
-  split; reflexivity.
-Qed.
+Definition f13_sig : sig := [ {| pk := PK; has_default := false; pname := 1 |};
+                             {| pk := KO; has_default := false; pname := 2 |} ].
+Theorem C19_f13_refused :
+  handler_invocation (Some f13_sig) (ByPos 1) = Some (-32602)%Z /\
+  handler_invocation (Some f13_sig) (ByName [1]%N) = Some (-32602)%Z /\
+  handler_invocation (Some f13_sig) (ByName [1; 2]%N) = None.
+Proof. repeat split. Qed.
 
 (* exactness: every call Python can bind is accepted, except that named arguments are
    always refused for handlers with positional-only parameters *)
@@ -50,12 +50,12 @@ Example C19_ex :
   let s := [ {| pk := PK; has_default := false; pname := 1 |};
              {| pk := PK; has_default := true; pname := 2 |};
              {| pk := KO; has_default := true; pname := 3 |} ] in
-  no_required_kwonly s = true /\ handler_invocation (Some s) (ByPos 1) = None /\
+  handler_invocation (Some s) (ByPos 1) = None /\
   handler_invocation (Some s) (ByName [1; 3]%N) = None /\
   handler_invocation (Some s) (ByName [3]%N) = Some (-32602)%Z.
 Proof. repeat split. Qed.
 
-Print Assumptions C19_sound_partial.
-Print Assumptions C19_sound_refuted.
+Print Assumptions C19_sound.
+Print Assumptions C19_f13_refused.
 Print Assumptions C19_exact.
 Print Assumptions C19_codes.
